@@ -870,7 +870,12 @@ class BlobStorage(BlobStorageMixin):
             for oid in self.fshelper.getOIDsForSerial(serial_id):
                 # we want to find the serial id of the previous revision
                 # of this blob object.
-                load_result = self.loadBefore(oid, serial_id)
+                try:
+                    load_result = self.loadBefore(oid, serial_id)
+                except POSKeyError:
+                    # The previous revision is an un-creation (the undo
+                    # of the transaction that created the blob).
+                    load_result = None
 
                 if load_result is None:
 
